@@ -110,6 +110,22 @@ def api_corr(ctx, n):
                 if len(a0) % 2 != 1 or abs(float(a0.index.values[mid])) > 1e-12 or any(float(a0[c].values[mid]) != 0.0 for c in a0.columns):
                     ctx.fail("oracle", "autocorrelogram is not zero at lag 0", dict(level="api-ac0", binsize=bsz, windowsize=wsz, unit=un),
                              impl=[float(a0.index.values[mid])] + [float(a0[c].values[mid]) for c in a0.columns])
+        # the bins cover the requested window for decimal (non-dyadic) sizes too: floor(2 w / b) bins, made odd, centred on the
+        # multiples of b - decided in exact rational arithmetic, not by a float floor division
+        if k % 5 == 1:
+            from fractions import Fraction as Fr
+            for bs_, ws_ in (("0.002", "1.5"), ("0.01", "0.1"), ("0.005", "0.05"), ("0.1", "0.7"), ("0.001", "0.3"), ("0.003", "0.03"),
+                             ("0.02", "0.3"), ("0.1", "0.75"), ("0.0005", "0.0355"), ("0.007", "0.5")):
+                nb = int(2 * Fr(ws_) / Fr(bs_)); nb += (nb % 2 == 0)
+                g0 = nap.TsGroup({1: nap.Ts(np.arange(1.0, 40.0, 3.0)), 4: nap.Ts(np.arange(2.0, 30.0, 2.0))})
+                ctx.case(("nbins", bs_, ws_))
+                for fname, cc in (("crosscorrelogram", nap.compute_crosscorrelogram(g0, float(bs_), float(ws_))),
+                                  ("autocorrelogram", nap.compute_autocorrelogram(g0, float(bs_), float(ws_)))):
+                    idx = cc.index.values
+                    okc = len(idx) == nb and np.allclose(idx, (np.arange(nb) - nb // 2) * float(bs_), rtol=0, atol=1e-9)
+                    if not okc:
+                        ctx.fail("oracle", "%s: bins do not cover the requested window (%d bins, lags %.6f..%.6f; expected %d bins up to +-%.6f)" %
+                                 (fname, len(idx), idx[0], idx[-1], nb, (nb // 2) * float(bs_)), dict(level="api-nbins", binsize=bs_, windowsize=ws_))
         ev = nap.Ts(farr(trains[2], U), time_support=full)
         ec = nap.compute_eventcorrelogram(g, ev, b * U / f, w * U / f, norm=norm, time_units=unit, **kw)
         evr = tr[2] if ep is not None else trains[2]
@@ -214,5 +230,5 @@ def run(ctx):
 
 
 def replay(ctx, rec):
-    print("re-run `./check C16 quick` with VERIF_SEED=%s; failing input: %s" % (rec.get("seed"), rec.get("input")))
-    return False
+    print("re-executing the recorded run of `./check C16 quick` with VERIF_SEED=%s; failing input: %s" % (rec.get("seed"), rec.get("input")))
+    return None
